@@ -93,6 +93,9 @@ pub fn install_panic_hook() {
             "<non-string panic>".to_string()
         };
         let loc = info.location().map(|l| format!(" @{}:{}", l.file().rsplit('/').next().unwrap_or(""), l.line())).unwrap_or_default();
+        if std::env::var_os("HV_PANIC_TRACE").is_some() {
+            eprintln!("[panic] {msg}{loc}\n{}", std::backtrace::Backtrace::force_capture());
+        }
         LAST_PANIC.with(|p| *p.borrow_mut() = format!("{msg}{loc}"));
     }));
 }
